@@ -49,9 +49,24 @@ def gen_excl(rng):
                 leave=rng.choice(["ok", "exc", "kill"]), wait=0.4)
 
 
+def gen_excl3(rng):
+    pre = []
+    for i in range(rng.choice([0, 0, 1])):
+        r = gen_run(rng, i == 0)
+        r["end"] = rng.choice(["ok", "exc"]) if r["end"] not in ("ok", "exc", "kill_in") else r["end"]
+        pre.append(r)
+    a, b_, c_ = ([rng.randrange(NJ) for _ in range(rng.choice([1, 1, 2]))] for _ in range(3))
+    return dict(kind="excl3", pre=pre, a=a, b=b_, c=c_, mk=sorted(set(a) | set(b_) | set(c_)),
+                leave=rng.choice(["ok", "exc"]), third=rng.choice(["new", "relaunch"]), wait=0.4)
+
+
 # ---------------------------------------------------------------- reading a run's record
 def subs_of(log):
     return [int(l.split()[1]) for l in log if l.startswith("sub ")]
+
+
+def tsubs(logs, tag):
+    return [int(l.split()[2]) for who in logs.values() for l in who if l.startswith(tag + " sub ")]
 
 
 def names(links):
@@ -143,6 +158,8 @@ def case_items(case, res):
     for p, (run, r) in enumerate(zip(case["pre"], res["pre"])):
         items += run_items(p, run, r, pre)
         pre = r["snap"]
+    if case["kind"] == "excl3":
+        return items + excl3_items(case, res, pre)
     p1, p2 = len(case["pre"]), len(case["pre"]) + 1
     items += [ev("MkJobDir", None, x) for x in case["mk"]]
     held = res["s_held"]
@@ -163,6 +180,36 @@ def case_items(case, res):
     items += [ev("Submit", p2, x) for x in subs_of(res["p2_log"])] + [ev("Link", p2, n) for n in names(res["s_end"]["jobs"])]
     items += [ev("EndOk", p2)] + [ev("RmEntry", p2, n) for n in names(mid["bak"])] + [ev("RmBakDir", p2), ev("Done", p2)]
     items.append(g_obs(res["s_end"]))
+    return items
+
+
+def enter_items(p, before, subs, inside):
+    return ([ev("Lock", p), ev("MkBak", p)] + [ev("Move", p, n) for n in names(before["jobs"])] + [ev("Ready", p)]
+            + [ev("Submit", p, x) for x in subs] + [ev("Link", p, n) for n in names(inside["jobs"])] + [g_obs(inside)])
+
+
+def leave_ok_items(p, inside):
+    return [ev("EndOk", p)] + [ev("RmEntry", p, n) for n in names(inside["bak"])] + [ev("RmBakDir", p), ev("Done", p)]
+
+
+def excl3_items(case, res, pre):
+    n = len(case["pre"])
+    pa, pb = n, n + 1
+    pc = n + 2 if case["third"] == "new" else pa      # "relaunch": the first process runs the experiment again
+    logs = res["logs"]
+    items = [ev("MkJobDir", None, x) for x in case["mk"]]
+    items += enter_items(pa, pre, tsubs(logs, "A"), res["s_a"])
+    if not res["b_early"]:
+        items.append(f"Blocked (Lock {gnat(pb)})")
+    items.append(g_obs(res["s_bwait"]))
+    items += leave_ok_items(pa, res["s_a"]) if case["leave"] == "ok" else [ev("EndExc", pa)]
+    items += enter_items(pb, res["s_a"], tsubs(logs, "B"), res["s_b"])
+    if not res["c_early"]:
+        items.append(f"Blocked (Lock {gnat(pc)})")
+    items.append(g_obs(res["s_cwait"]))
+    items += leave_ok_items(pb, res["s_b"])
+    items += enter_items(pc, res["s_b"], tsubs(logs, "C"), res["s_c"])
+    items += leave_ok_items(pc, res["s_c"]) + [g_obs(res["s_end"])]
     return items
 
 
@@ -234,6 +281,8 @@ def oracle_case(case, res):
     for i, r in enumerate(res["pre"]):
         o.run(r, i)
     n = len(res["pre"])
+    if case["kind"] == "excl3":
+        return oracle_excl3(o, case, res, n)
     if res["p2_early"]:
         o.flag("C16:second-holder-entered", "a second process entered the experiment while the first still held it", n)
     if res["s_waiting"] != res["s_held"]:
@@ -257,12 +306,66 @@ def oracle_case(case, res):
     return o.found
 
 
+def oracle_excl3(o, case, res, n):
+    """The times spent inside the block by A, B and the third contender must be pairwise disjoint:
+    B gets in only after A left, the third only after B left; nobody but the process inside touches the index."""
+    logs = res["logs"]
+    all_lines = [l for who in logs.values() for l in who]
+    for l in all_lines:
+        if " error " in l:
+            o.flag("C16:context-raised", "the experiment context raised although the block did not: " + l[:200], n)
+        if l.endswith("sync-timeout"):
+            o.flag("C16:link-missing", "a submitted job never got its link while the experiment was held", n)
+    if res["b_early"]:
+        o.flag("C16:second-holder-entered", "a second process entered the experiment while the first still held it", n)
+    if res["s_bwait"] != res["s_a"]:
+        o.flag("C16:index-changed-by-waiter", f"the index changed while a second process was waiting for the experiment: "
+               f"{res['s_a']} -> {res['s_bwait']}", n)
+    if not res["b_after"]:
+        o.flag("C16:second-never-entered", "the second process did not get the experiment after the first left", n + 1)
+        return o.found
+    if res["c_early"]:
+        o.flag("C16:holder-joined-after-handover", "after the experiment went from a first process to a waiting second one, "
+               "a third contender entered while the second was still inside", n + 2)
+    if res["s_cwait"] != res["s_b"]:
+        o.flag("C16:index-changed-after-handover", f"the index of the process inside changed while another contender was "
+               f"supposed to wait: {res['s_b']} -> {res['s_cwait']}", n + 2)
+    if not res["c_after"]:
+        o.flag("C16:third-never-entered", "the third contender did not get the experiment after the second left", n + 2)
+    # the three blocks as runs of the experiment
+    o.links_ok(res["s_a"], n)
+    made_a = set(names(res["s_a"]["jobs"])) & set(tsubs(logs, "A"))
+    o.keep |= made_a
+    o.kept(res["s_bwait"], n)
+    if case["leave"] == "ok":
+        o.keep = made_a
+    o.links_ok(res["s_b"], n + 1)
+    made_b = set(names(res["s_b"]["jobs"])) & set(tsubs(logs, "B"))
+    o.keep |= made_b
+    o.kept(res["s_b"], n + 1)
+    o.kept(res["s_cwait"], n + 1)
+    if res["c_after"] and res["c_left"] and not res["c_early"]:
+        o.keep = made_b                       # B left normally
+        o.keep |= set(names(res["s_c"]["jobs"])) & set(tsubs(logs, "C"))
+        o.kept(res["s_c"], n + 2)
+        o.links_ok(res["s_end"], n + 2)
+        o.completed(res["s_end"], tsubs(logs, "C"), n + 2)
+        o.keep = set(tsubs(logs, "C"))
+        o.kept(res["s_end"], n + 2)
+    return o.found
+
+
 def machinery_problem(case, res):
     rs = res["runs"] if case["kind"] == "hist" else res["pre"]
     for r in rs:
         m = run_failed(r)
         if m:
             return m
+    if case["kind"] == "excl3":
+        if not res["a_in"] or not res["a_left"] or res["timeouts"]:
+            return "probe3: first process did not get in / did not leave"
+        if not res["b_trying"] or not res["c_trying"]:
+            return "probe3: a contender did not start"
     if case["kind"] == "excl":
         if not res["p1_in"] or res.get("p1_timeout"):
             return "probe: first process did not get in / did not leave"
@@ -322,7 +425,8 @@ def shrink(c, case, key):
 def run(c: Check):
     c.rule = ("random histories of 1-6 runs of one experiment on one workspace (0-5 submits each out of 7 jobs; ending "
               "normally, raising after k submits, killed after k submits, killed inside __enter__ before/after k moves, "
-              "killed inside __exit__ after k removals or in wait()) plus two-process probes; non-trivial = a history "
+              "killed inside __exit__ after k removals or in wait()) plus two-process probes and three-process lock hand-over "
+              "probes (A inside, B waiting, A leaves through __exit__, B inside, C or A again contends); non-trivial = a history "
               "with a completed run followed by at least one aborted or killed run, or a probe; distinct by canonical case")
     if "props/C16.v" in (ROOT / "coq" / "_CoqProject").read_text():
         c.build()
@@ -334,16 +438,18 @@ def run(c: Check):
         rp = json.load(open(c.replay))["replay"]
         if isinstance(rp, dict) and "case" in rp:
             cases.append(rp["case"])
-        nh = ne = 0
+        nh = ne = n3 = 0
     else:
         gold = ROOT / "golden" / "c16.json"
         if gold.exists():
             cases += json.load(open(gold))
-        nh, ne = (300, 32) if c.quick else (4500, 300)
+        nh, ne, n3 = (300, 24, 12) if c.quick else (4500, 240, 120)
     for _ in range(nh):
         cases.append(gen_hist(c.rng))
     for _ in range(ne):
         cases.append(gen_excl(c.rng))
+    for _ in range(n3):
+        cases.append(gen_excl3(c.rng))
     results = drive(c, cases, "d")
     good = []
     for case, res in zip(cases, results):
@@ -357,9 +463,11 @@ def run(c: Check):
         c.count("kind:" + case["kind"])
         if case["kind"] == "hist":
             c.count(f"runs={len(rs)}")
+        elif case["kind"] == "excl3":
+            c.count(f"probe3:leave={case['leave']},third={case['third']}")
         else:
             c.count("probe-leave:" + case["leave"])
-        seen_ok, nontrivial = False, case["kind"] == "excl"
+        seen_ok, nontrivial = False, case["kind"] != "hist"
         prev = EMPTY
         for run_, r in zip(rs, rr):
             jp, bp = set(names(prev["jobs"])), set(names(prev["bak"]))
